@@ -464,6 +464,30 @@ def gen_join_template(rng, peers=3):
     return t, {"join after par template": 1}
 
 
+def gen_scope_template(rng, peers=3):
+    """(added after the seeded change C16-new-epilog-skipped-on-error was missed) a `new x` whose body FAILS and is caught
+    by an xor OUTSIDE the new; the handler and the rest of the script then read x: they must see the OUTER x (or wait
+    when there is none), never the value the failed body gave to the inner x."""
+    ps = PEERS[:peers]
+
+    def peer():
+        return '"@%s"' % rng.choice(ps)
+
+    outer = rng.random() < 0.7
+    fail = rng.choice(['(call %s ("s" "fail") [x])' % peer(), '(match x "zzz" (null))', '(fail 7 "user error")',
+                       '(call %s ("s" "fail2") [])' % peer()])
+    inner = '(seq (call %s ("s" "tag") [] x) %s)' % (peer(), fail)
+    body = "(new x %s)" % inner
+    if rng.random() < 0.3:
+        body = "(seq (call %s (\"s\" \"num\") [] n1) %s)" % (peer(), body)
+    handler = '(call %s ("s" "args") [%s] h1)' % (peer(), "x" if outer else '"lit"')
+    after = '(call %s ("s" "args") [x] a1)' % peer() if outer else '(call %s ("s" "tag") [] a1)' % peer()
+    t = "(seq (xor %s %s) %s)" % (body, handler, after)
+    if outer:
+        t = '(seq (call %s ("s" "obj") [] x) %s)' % (peer(), t)
+    return t, {"new scope left by a caught failure": 1}
+
+
 def gen_schedule(rng, n_ops=30, dup=0.1, redeliver=0.05, batch=0.3):
     """Random schedule (same operations as lib/airgen.py): deliveries, duplicates, re-deliveries, answers to all
     or to a subset of the pending requests of a peer."""
